@@ -660,8 +660,8 @@ func runC01(t *mon.T, raw json.RawMessage) {
 func genC01(g *mon.G) {
 	r := gen.Rand(g.Seed)
 	n := g.Pick(1500, 40000)
-	dpads := []uint64{0, 0, 1, 7, 1413}
-	ipads := []uint64{0, 0, 1, 1024}
+	dpads := []uint64{0, 0, 1, 7, 1413, 4096, 4097, 8141, 12289}
+	ipads := []uint64{0, 0, 1, 1024, 4097, 10000}
 	for i := 0; i < n; i++ {
 		cfg := lab.Cfg{
 			V1:       r.Intn(3) == 0,
